@@ -237,10 +237,28 @@ def run(chk):
     rng = random.Random(chk.seed)
     thorough = chk.tier == "thorough"
     K = 4 if thorough else 3
-    chk.bounds = {"trampoline iterations": K, "argument vectors": "0..%d arguments" % skel.MAXARGS}
+    L = 5 if thorough else 3
+    chk.bounds = {"trampoline iterations": K, "argument vectors": "0..%d arguments" % skel.MAXARGS, "builtin argument vectors": "0..3 arguments of arbitrary variant",
+                  "vectors": "length <= %d, all i32 indices" % L, "division": "all exact operands (full width)"}
     chk.assumptions += [
-        "callees of the trampoline (apply_scheme_procedure, eval_procedure_call, BuiltinProcedureBody::apply, ParameterFormals::len) are nondeterministic stubs returning every value of their type",
+        "callees of the trampoline (apply_scheme_procedure, eval_procedure_call, BuiltinProcedureBody::apply, ParameterFormals::len) are nondeterministic stubs returning every value of their type; apply (the builtin) and library procedures reach procedures through the same apply_procedure, so 'direct / tail / apply / library' reduce to first vs later trampoline iteration",
+        "'divides by exact zero' is read as: divisor exact zero in exact arithmetic (C09 assigns (/ 1.5 0) its IEEE value)",
+        "two faults in one call (e.g. (/ 0 0 #t)) may be reported as either kind",
+        "'the interpreter keeps the effects completed before the error and evaluates later forms normally' is a whole-program statement: outside (only the units' own error paths are covered)",
     ]
     chk.step("arity", spec_arity, chk, K)
+    from .c01_parts import spec_apply_scheme, spec_eval_expression
+    chk.step("binding loop", spec_apply_scheme, chk, "", ("nopanic",))
     chk.step("expect_*", spec_expect, chk)
     chk.step("builtin argument types", spec_builtin_types, chk, 3)
+    chk.step("operator / unbound variable", spec_eval_expression, chk, ("errors",))
+    # vector bounds / literal mutation / unbound assignment / exact division by zero: the same obligations as in C03 and C09
+    from . import c03, c09
+    chk.step("vector index and mutability", c03.spec_vector_set, chk, L, "clone")
+    chk.step("vector-ref bounds", c03.spec_vector_ref, chk, L)
+    chk.step("make-vector length", c03.spec_make_vector, chk, L)
+    chk.step("assignment to an unbound variable", c03.spec_scope, chk, [-1, 0, 1, 0], 2)
+    chk.step("division by exact zero (Number::div)", c09.spec_binop, chk, "div")
+    for which in ("floor_quotient", "floor_remainder"):
+        chk.step("division by exact zero (%s)" % which, c09.spec_floor_qr, chk, which)
+    chk.step("division by exact zero (builtin /)", c09.spec_fold, chk, "/", "base::div", 3)
